@@ -1211,7 +1211,7 @@ public:
                      DIdxSet* intVars  = nullptr)
    {
       bool ok;
-      char c;
+      char c = '\0';
 
       in.get(c);
       in.putback(c);
